@@ -344,6 +344,7 @@ class Emitter:
         s.declared = set()
         s.gnames = {}
         s.inprogress = set()
+        s.icache = {}
 
     def cid(s, name):
         n = name[1:]
@@ -439,6 +440,50 @@ class Emitter:
             fs.append('%s f%d;' % (s.ctype(f), i))
         if not fs: fs = ['char empty_[0];']
         s.decls.append('struct %s%s { %s };' % ('__attribute__((packed)) ' if t.packed else '', cname, ' '.join(fs)))
+
+    # ---------------- indirect call candidates
+    def base_chain(s, t):
+        """names of the struct types found by following first fields (single inheritance chain), '.base' suffixes dropped"""
+        out = []
+        seen = 0
+        while seen < 20:
+            seen += 1
+            if isinstance(t, TNamed):
+                nm = t.name
+                if nm.endswith('.base"'): nm = nm[:-6] + '"'
+                elif nm.endswith('.base'): nm = nm[:-5]
+                out.append(nm)
+                t = s.m.types.get(t.name)
+            if isinstance(t, TStruct) and t.fields:
+                t = t.fields[0]
+                continue
+            break
+        return out
+
+    def receivers_related(s, a, b):
+        if not (isinstance(a, TPtr) and isinstance(b, TPtr)): return repr(a) == repr(b)
+        ca, cb = s.base_chain(a.to), s.base_chain(b.to)
+        if not ca or not cb: return repr(a) == repr(b) or not ca and not cb
+        return ca[0] in cb or cb[0] in ca
+
+    def indirect_candidates(s, ft):
+        key = repr(ft)
+        if key in s.icache: return s.icache[key]
+        res = []
+        for name, f in s.m.funcs.items():
+            if name.startswith('@llvm.') or f.va: continue
+            if s.gname(name) in BUILTIN_SKIP: continue
+            if len(f.params) != len(ft.args): continue
+            if repr(f.ret) != repr(ft.ret): continue
+            ok = True
+            for i, (pt, _, _) in enumerate(f.params):
+                if i == 0:
+                    if not s.receivers_related(pt, ft.args[0]): ok = False; break
+                elif repr(pt) != repr(ft.args[i]): ok = False; break
+            if ok: res.append(f)
+        if len(res) > 24: res = None     # too unspecific (e.g. void(i8*)): leave it to CBMC
+        s.icache[key] = res
+        return res
 
     # ---------------- x86-64 data layout
     def alignof(s, t):
@@ -680,6 +725,12 @@ uint64_t __CPROVER_uninterpreted_vt_fadd(uint64_t, uint64_t); uint64_t __CPROVER
 #define VT_UF(name, cop) static inline double vt_uf_##name(double a, double b) { return a cop b; }
 #endif
 VT_UF(fmul, *) VT_UF(fdiv, /) VT_UF(fadd, +) VT_UF(fsub, -)
+#if defined(VT_NEW_CAP) && defined(__CPROVER__)
+static inline void vt_new_cap_check(uint64_t n) { if (n > VT_NEW_CAP) { __CPROVER_assert(0, "bounded std model capacity exceeded (allocation above VT_NEW_CAP)"); __CPROVER_assume(0); } }
+#define VT_NEW_ARRAY(T, nbytes) (vt_new_cap_check(nbytes), (uint8_t*)malloc(sizeof(T) * (VT_NEW_CAP / sizeof(T))))
+#else
+#define VT_NEW_ARRAY(T, nbytes) ((uint8_t*)malloc(sizeof(T) * ((nbytes) / sizeof(T))))
+#endif
 static inline uint64_t ir2c_umax(uint64_t a, uint64_t b) { return a > b ? a : b; }
 static inline uint64_t ir2c_umin(uint64_t a, uint64_t b) { return a < b ? a : b; }
 static inline int64_t ir2c_smax(int64_t a, int64_t b) { return a > b ? a : b; }
@@ -1076,6 +1127,8 @@ class FuncTrans:
             L[-1] += ' /*ND %s %s*/' % (name, em.lref(dest))
         elif k == 'gname' and name in ('_Znwm', '_Znam') and args[0].kind == 'num' and dest and s.typed_new(dest, int(args[0].val)):
             pass
+        elif k == 'gname' and name in ('_Znwm', '_Znam', 'malloc') and dest and s.typed_array_new(dest, argv[0], name):
+            pass
         else:
             if k == 'gname':
                 while callee in em.m.aliases: callee = em.m.aliases[callee]
@@ -1091,6 +1144,9 @@ class FuncTrans:
                 ce = fn
             elif k == 'lname':
                 ft = fty or TFunc(rty, [a.ty for a in args if a is not None], False)
+                if s.devirtualize(dest, rty, ft, em.lref(callee), argv):
+                    if normal: L.append('  ' + s.goto(normal))
+                    return
                 ce = '((%s*)%s)' % (em.functype(ft), em.lref(callee))
             else:
                 ft = fty or TFunc(rty, [a.ty for a in args if a is not None], False)
@@ -1099,6 +1155,29 @@ class FuncTrans:
             if dest and not isinstance(rty, TVoid): s.setl(dest, rty, e)
             else: L.append('  %s;' % e)
         if normal: L.append('  ' + s.goto(normal))
+
+    def devirtualize(s, dest, rty, ft, fpexpr, argv):
+        """Indirect call -> explicit dispatch over the type-compatible functions of the module (same return and non-receiver
+        parameter types; receiver types related by single inheritance, judged from the first-field chain of the LLVM struct
+        types).  CBMC's own candidate set (every function with a compatible C signature) makes virtual-heavy code explode.
+        A call that reaches none of the candidates is a reported failure, never silently dropped."""
+        em = s.em
+        if ft.va: return False
+        cands = em.indirect_candidates(ft)
+        if cands is None: return False
+        L = s.lines
+        if dest and not isinstance(rty, TVoid):
+            cn = em.lref(dest); s.locals[cn] = em.ctype(rty); s.ltypes[dest] = rty
+        first = True
+        for f in cands:
+            fn = em.gname(f.name)
+            cargs = ['(%s)%s' % (em.ctype(f.params[i][0]), a) for i, a in enumerate(argv)]
+            call = '%s(%s)' % (fn, ', '.join(cargs))
+            if dest and not isinstance(rty, TVoid): call = '%s = (%s)%s' % (em.lref(dest), em.ctype(rty), call)
+            L.append('  %sif ((void*)%s == (void*)&%s) { %s; }' % ('' if first else 'else ', fpexpr, fn, call))
+            first = False
+        L.append('  %s{ VT_ASSERT(0, "indirect call to a function outside the type-compatible candidate set"); __CPROVER_assume(0); }' % ('' if first else 'else '))
+        return True
 
     def typed_new(s, dest, size):
         """operator new(C) whose result is immediately used as T*: allocate as (array of) struct T so that CBMC keeps
@@ -1115,6 +1194,30 @@ class FuncTrans:
                 s.setl(dest, TPtr(TInt(8)), '(uint8_t*)malloc(sizeof(%s) * %d)' % (ct, size // sz))
                 s.lines.append('  __CPROVER_assume(%s != 0);' % em.lref(dest))
                 return True
+        return False
+
+    def typed_array_new(s, dest, nbytes, fname):
+        """operator new / malloc whose result is used as an array of pointers or scalars: allocate a typed array so that CBMC
+        does not have to assemble elements from bytes (VT_NEW_ARRAY also applies the optional fixed-capacity model)."""
+        em = s.em
+        pat = re.compile(r'bitcast i8\* ' + re.escape(dest) + r' to ([^,;]+?)\*(?:\s*$|,)')
+        for ln in s.f.body:
+            if ' = bitcast i8* ' + dest + ' to ' not in ln: continue
+            mm = re.search(r'bitcast i8\* ' + re.escape(dest) + r' to (.+)$', ln.strip())
+            if not mm: continue
+            tstr = mm.group(1).split(',')[0].strip()
+            try:
+                t = P(tokenize(tstr)).ptype()
+            except Exception:
+                continue
+            if not isinstance(t, TPtr): continue
+            el = em.resolve(t.to)
+            if isinstance(el, TPtr) or (isinstance(el, TInt) and el.n in (16, 32, 64)) or (isinstance(el, TFloat) and el.k == 'double'):
+                ct = em.ctype(t.to)
+                s.setl(dest, TPtr(TInt(8)), 'VT_NEW_ARRAY(%s, %s)' % (ct, nbytes))
+                if fname != 'malloc': s.lines.append('  __CPROVER_assume(%s != 0);' % em.lref(dest))
+                return True
+            return False
         return False
 
     def intrinsic(s, name, args, argv, rty, dest):
